@@ -74,13 +74,14 @@ theorem nextBuf99_nofill (s : State) (hP : Pre s) (h5 : s.vars 5 = 0) :
     · intro y h0 h1; simp [setVar_vars, h0, h1]
 
 theorem nextBuf99_eof_pending (s : State) (hP : Pre s) (h5 : s.vars 5 ≠ 0) (h6 : s.vars 6 = 2) :
-    ∃ s', Gen.NextBufC99.nextBuf.run s = (s', .returned (retOf s 0)) ∧ Filled s s' 0 := by
+    ∃ s', Gen.NextBufC99.nextBuf.run s = (s', .returned (retOf s 0)) ∧ Filled s s' 0 ∧ s'.vars 4 = s.vars 4 := by
   rw [nextBuf99_shape, prefix99_run s hP h5]
   exact rest_eof_pending s (moved99 s) hP (moved99_like s hP) h6
 
 theorem nextBuf99_read (s : State) (hP : Pre s) (h5 : s.vars 5 ≠ 0) (h6 : s.vars 6 ≠ 2)
     (hcan : s.vars 7 ≠ 0 ∨ 1 ≤ s.vars 4 - ntm s - 1) :
-    ∃ s' m, 1 ≤ m ∧ m ≤ s.vars 18 ∧ Gen.NextBufC99.nextBuf.run s = (s', .returned (retOf s (got s m))) ∧ Filled s s' (got s m) := by
+    ∃ s' m, 1 ≤ m ∧ m ≤ s.vars 18 ∧ Gen.NextBufC99.nextBuf.run s = (s', .returned (retOf s (got s m))) ∧ Filled s s' (got s m) ∧
+      Exact s s' m := by
   rw [nextBuf99_shape, prefix99_run s hP h5]
   exact rest_read s (moved99 s) hP (moved99_like s hP) h6 hcan
 
